@@ -1,0 +1,23 @@
+//go:build verif
+// +build verif
+
+package verifhook
+
+import "sync/atomic"
+
+var hook atomic.Value // of func(int)
+
+type holder struct{ f func(int) }
+
+// Set installs (or with nil removes) the function called at every schedule
+// point.
+func Set(f func(int)) {
+	hook.Store(holder{f: f})
+}
+
+// Point is a schedule point.
+func Point(id int) {
+	if h, ok := hook.Load().(holder); ok && h.f != nil {
+		h.f(id)
+	}
+}
